@@ -1,5 +1,5 @@
 """What MANIFEST.json claims. lib/mkmanifest.py turns this into MANIFEST.json."""
-HOOK_COMMITS = ["7356e9f", "eeb3885"]
+HOOK_COMMITS = ["7356e9f", "eeb3885", "c6d7b98"]
 
 MC = "model_checking"
 NEGO_NOTE = ("Trusts: TLC; the in-tree Go server (with add-only verif overrides) as the peer; the harness logging faithfully "
@@ -27,5 +27,17 @@ CLAIMED = {
  "C18": dict(level=MC, technique="TLC key-share grammar/size check on every wire hello + replay with the server forced to each offered group + TLC freshness formula over recorded hellos",
    text="Every TLS 1.3 parrot x every offered group the server implements (share present or via HRR) must complete; share sizes per group and share groups subset of supported_groups are judged on the wire bytes in TLA+; across 16 (quick) / 128 (thorough) connections per parrot no share, random or session id repeats.",
    note=NEGO_NOTE),
+ "C16": dict(level=MC, technique="TLC evaluation of the GREASE-ECH grammar/candidate/freshness formulas (C16.tla) over recorded hellos + CH2Problems on HRR traces",
+   text="64 (quick) / 512 (thorough) wire hellos of every parrot whose dumped spec carries a GREASE ECH extension are judged in TLA+: outer type, (KDF, AEAD) from the descriptor's candidate list, 32-byte key, payload length = candidate + 16, freshness of key / payload / config id; every HelloRetryRequest scenario of those parrots must resend identical extension bytes.",
+   note=NEGO_NOTE),
+ "C21": dict(level=MC, technique="TLC model check of the decompression read loop (CertComp.tla: every chunking, both read policies) + replay of every terminal state with real encoders + TLC trace validation (CertCompTrace)",
+   text="The model treats the decompressor as a chunk producer and shows that 'read full, then expect EOF' reaches an allowed outcome for every chunking while the single Read of the unrepaired code is refuted; every terminal state of the model (algorithm x advertised x length x declared x chunking x valid x same) is mapped to zlib/brotli/zstd encoder settings (levels, flush points, chain sizes, corruptions, huge/unknown) and replayed through a hooked server; TLC accepts only outcomes in Allowed(scenario) (accept / bad_certificate / abort).",
+   note="Trusts the hooked in-tree server and the vendored encoders; handshakes that hit the transport deadline are re-run alone and are exit 2, never a verdict."),
+ "C24": dict(level=MC, technique="TLC exhaustive check of the varint/transport-parameter codec laws on a boundary lattice (Varint_MC) + real Append/AppendWithLen/Read/Marshal outputs validated by TLC (Varint_Trace)",
+   text="Dec(Enc(x))=x, minimal length, AppendWithLen widths and refusal are model-checked over {0,1,0x3f,0x40,0xff}^8 and parameter lists up to length 3; the real quicvarint functions and TransportParameters.Marshal are run on the lattice plus seeded values/lists (GREASE, fake ids) and every result is compared by TLC with the TLA+ codec (values as 8-byte sequences).",
+   note="Trusts TLC, the verif accessors (thin wrappers of internal/quicvarint) and faithful logging (binding canaries). 62-bit space is sampled + lattice, not symbolic."),
+ "C30": dict(level=MC, technique="TLC refinement check of the mutex-protected stream (Prng_MC, torn read found without mutex) + sequential and concurrent real runs validated/linearised by TLC (Prng_Trace)",
+   text="Lock/copy/unlock refines the atomic stream model; helper guards (Intn/Int63n/Range/FlipWeightedCoin) are checked on a TLC-emitted boundary grid for many seeds in three separate processes (determinism), salted seeds as a function of (seed, salt), concurrent Reads under -race are linearised against the reference stream.",
+   note="Trusts TLC, the race detector, the verif accessor for the unexported prng. Known finding: salts differing only in trailing NUL bytes collide."),
 }
 NOT_APPLICABLE = {}
